@@ -241,5 +241,10 @@ func traceStep(e *executor, r *stepResult) {
 	for _, c := range e.m.ctrsIn(stCreated, stRunning, stStopped, stCreateFailed) {
 		fmt.Printf("TRACE    rt %s %s pod=%s/%s name=%s req=%d cpus=%q mems=%q\n", c.ID, c.State, e.m.pods[c.Pod].Spec.Namespace, e.m.pods[c.Pod].Spec.QoS, c.Spec.Name, c.ReqMilli, c.Res.Cpus, c.Res.Mems)
 	}
+	pend := []string{}
+	for _, pc := range e.h.m.cache.GetPendingContainers() {
+		pend = append(pend, fmt.Sprintf("%s(%v)", pc.GetID(), pc.GetPending()))
+	}
+	fmt.Printf("TRACE    pending %v\n", pend)
 	traceWhiteBox(e)
 }
